@@ -154,6 +154,12 @@ def run(ctx):
     rng = random.Random(ctx["seed"] + 2001)
     thorough = ctx["tier"] == "thorough"
     viol, corr = [], []
+    import regress
+    for name, r in regress.run(["golomb_own_consistency_enumeration"]).items():
+        report.cov["evaluations"] += 1
+        report.count("corpus", name)
+        if not r["ok"]:
+            viol.append({"kind": "corpus", "case": name, "detail": r["detail"]})
     inst = []  # (name, args for the Lean example, python problem, validator, expected count or None, kind)
     for n in ([4, 5, 6] if not thorough else [1, 2, 3, 4, 5, 6, 7, 8]):
         inst.append(("queens", [n], QueensProblem(n), lambda s, n=n: v_queens(n, s), KNOWN["queens"].get(n)))
@@ -309,6 +315,38 @@ def run(ctx):
         report.cov["evaluations"] += 1
         if r[0] != "ok" or r[1] is None or r[1][gp.length_idx] != KNOWN["golomb"][marks]:
             viol.append({"kind": "example", "model": "golomb", "args": [marks], "detail": f"optimal length {None if r[1] is None else r[1][gp.length_idx]} != known {KNOWN['golomb'][marks]} ({r[0]})"})
+    # the Golomb model ships its OWN consistency algorithm (golomb_consistency_algorithm: a redundant strengthening of bound
+    # consistency, registered by the example's main and by the tests): run as the example does; the optimum must be the known one,
+    # the returned vector a ruler (independent validator), and for small sizes the solution SET under it must equal the set under
+    # plain bound consistency (a strengthening may not lose or invent solutions)
+    from nucs.solvers.backtrack_solver import BacktrackSolver
+    from nucs.solvers.consistency_algorithms import register_consistency_algorithm
+    gidx = register_consistency_algorithm(G.golomb_consistency_algorithm)
+    for marks in ([4, 5, 6] if not thorough else [4, 5, 6, 7, 8]):
+        for sb in (True, False):
+            gp = GolombProblem(marks, sb)
+            try:
+                with nv.guard(250):
+                    sol = BacktrackSolver(gp, consistency_alg_idx=gidx, log_level="ERROR").minimize(gp.length_idx)
+            except Exception as e:  # noqa: BLE001
+                viol.append({"kind": "example", "model": "golomb", "args": [marks, int(sb)], "detail": f"own consistency algorithm: {type(e).__name__}: {e}"})
+                continue
+            report.cov["evaluations"] += 1
+            report.count("golomb_own_consistency", f"{marks}:{int(sb)}")
+            if sol is None or int(sol[gp.length_idx]) != KNOWN["golomb"][marks]:
+                viol.append({"kind": "example", "model": "golomb", "args": [marks, int(sb)],
+                             "detail": f"with the model's own consistency algorithm the optimal length is {None if sol is None else int(sol[gp.length_idx])}, known {KNOWN['golomb'][marks]}"})
+            elif not v_golomb([0] + [int(x) for x in sol[: marks - 1]], KNOWN["golomb"][marks]):
+                viol.append({"kind": "example", "model": "golomb", "args": [marks, int(sb)], "detail": f"the returned marks {[int(x) for x in sol[: marks - 1]]} are not a Golomb ruler of that length"})
+        if marks <= (5 if thorough else 4):
+            sets = []
+            for idx in (gidx, 0):
+                gp = GolombProblem(marks, True)
+                sets.append(sorted(tuple(int(x) for x in s_) for s_ in BacktrackSolver(gp, consistency_alg_idx=idx, log_level="ERROR").solve()))
+            report.cov["evaluations"] += 2
+            if sets[0] != sets[1]:
+                viol.append({"kind": "example", "model": "golomb", "args": [marks, 1],
+                             "detail": f"the model's own consistency algorithm changes the solution set: {len(sets[0])} vs {len(sets[1])} under plain bound consistency"})
     w, v, cap = [4, 5, 6, 7], [3, 2, 4, 5], 8
     kp = KnapsackProblem(w, v, cap)
     r = nv.impl_optimize(from_problem(kp), nv.Cfg(), kp.weight, False)
